@@ -43,6 +43,53 @@ pub fn alphabet() -> Vec<(&'static str, Vec<u8>)> {
     ]
 }
 
+/// requests that only take part in the histories (served back to back by one thread): pairs that
+/// differ in exactly one dimension a cache key could forget (requested method / headers of a
+/// preflight, spelling of an origin, letter case of an extension, query string, path behind the
+/// same origin)
+pub fn history_extra() -> Vec<(&'static str, Vec<u8>)> {
+    let h = [("Host", "localhost")];
+    vec![
+        ("options-preflight-put", drive::request_bytes("OPTIONS", "/file.txt", "HTTP/1.1", &[("Host", "localhost"), ("Origin", "https://foo.example"), ("Access-Control-Request-Method", "PUT"), ("Access-Control-Request-Headers", "x-custom-a")], b"")),
+        ("options-preflight-delete-other-path", drive::request_bytes("OPTIONS", "/a.txt", "HTTP/1.1", &[("Host", "localhost"), ("Origin", "https://foo.example"), ("Access-Control-Request-Method", "DELETE"), ("Access-Control-Request-Headers", "authorization, x-b")], b"")),
+        ("options-preflight-other-origin", drive::request_bytes("OPTIONS", "/file.txt", "HTTP/1.1", &[("Host", "localhost"), ("Origin", "https://bar.example"), ("Access-Control-Request-Method", "POST")], b"")),
+        ("options-no-origin", drive::request_bytes("OPTIONS", "/file.txt", "HTTP/1.1", &h, b"")),
+        ("get-with-origin-foo", drive::get("/file.txt", &[("Host", "localhost"), ("Origin", "https://foo.example")])),
+        ("get-with-origin-case-variant", drive::get("/file.txt", &[("Host", "localhost"), ("Origin", "HTTPS://FOO.EXAMPLE")])),
+        ("get-with-origin-unlisted", drive::get("/file.txt", &[("Host", "localhost"), ("Origin", "https://evil.example")])),
+        ("get-upper-ext", drive::get("/UPPER.TXT", &h)),
+        ("get-mixed-ext", drive::get("/Photo.Jpg", &h)),
+        ("get-lower-jpg", drive::get("/photo.jpg", &h)),
+        ("get-file-query", drive::get("/file.txt?x=1", &h)),
+        ("head-big", drive::request_bytes("HEAD", "/big.bin", "HTTP/1.1", &h, b"")),
+        ("head-missing", drive::request_bytes("HEAD", "/missing", "HTTP/1.1", &h, b"")),
+        ("get-suffix-range-other", drive::get("/a.txt", &[("Host", "localhost"), ("Range", "bytes=-4")])),
+        ("form-get-other", drive::get("/form-get-method?who=alice", &h)),
+        ("get-html-fallback", drive::get("/page", &h)),
+    ]
+}
+
+pub fn every_request() -> Vec<(&'static str, Vec<u8>)> {
+    let mut v = alphabet();
+    v.extend(history_extra());
+    v
+}
+
+/// server configurations the histories run under: "default" (allow-all cross-origin mode) and
+/// "cors-configured" (switch off, two origins listed, credentials on)
+pub fn apply_config(name: &str) {
+    drive::default_config();
+    if name == "cors-configured" {
+        std::env::set_var("RWS_CONFIG_CORS_ALLOW_ALL", "false");
+        std::env::set_var("RWS_CONFIG_CORS_ALLOW_ORIGINS", "https://foo.example,https://bar.example");
+        std::env::set_var("RWS_CONFIG_CORS_ALLOW_CREDENTIALS", "true");
+        std::env::set_var("RWS_CONFIG_CORS_ALLOW_METHODS", "GET,POST,PUT");
+        std::env::set_var("RWS_CONFIG_CORS_ALLOW_HEADERS", "content-type,x-custom-a");
+        std::env::set_var("RWS_CONFIG_CORS_EXPOSE_HEADERS", "content-type");
+        std::env::set_var("RWS_CONFIG_CORS_MAX_AGE", "600");
+    }
+}
+
 pub fn build_tree(tag: &str) -> std::path::PathBuf {
     let root = crate::tree::scratch_root(tag);
     let mut t = crate::corpus::tree();
@@ -51,6 +98,9 @@ pub fn build_tree(tag: &str) -> std::path::PathBuf {
     t.file("targets/big.bin", &crate::tree::coded(30000, 5));
     t.link("link-small.txt", "@/targets/small.txt");
     t.link("link-big.bin", "@/targets/big.bin");
+    t.file("UPPER.TXT", b"upper-case extension\n");
+    t.file("Photo.Jpg", b"\xff\xd8\xff mixed-case jpg");
+    t.file("photo.jpg", b"\xff\xd8\xff lower-case jpg");
     t.build(&root);
     root
 }
@@ -89,6 +139,25 @@ pub fn solo(req: &[u8]) -> Result<Vec<u8>, String> {
     fork_run(|| serve(req))
 }
 
+thread_local! {
+    static SOLO_CACHE: std::cell::RefCell<std::collections::HashMap<(String, Vec<u8>), Vec<u8>>> = Default::default();
+}
+/// solo response under a named configuration (each computed once per worker process, always in
+/// a fresh child)
+pub fn solo_under(config: &str, req: &[u8]) -> Result<Vec<u8>, String> {
+    let key = (config.to_string(), req.to_vec());
+    if let Some(v) = SOLO_CACHE.with(|c| c.borrow().get(&key).cloned()) {
+        return Ok(v);
+    }
+    let cfg = config.to_string();
+    let v = fork_run(|| {
+        apply_config(&cfg);
+        serve(req)
+    })?;
+    SOLO_CACHE.with(|c| c.borrow_mut().insert(key, v.clone()));
+    Ok(v)
+}
+
 fn diff_kind(name: &str, got: &[u8], want: &[u8]) -> String {
     if got.starts_with(b"PANIC") {
         return "panic".into();
@@ -118,15 +187,21 @@ fn diff_kind(name: &str, got: &[u8], want: &[u8]) -> String {
 // (1) histories
 
 pub fn check_history(names: &[String]) -> Vec<(String, String)> {
-    let alpha = alphabet();
+    check_history_under("default", names)
+}
+
+pub fn check_history_under(config: &str, names: &[String]) -> Vec<(String, String)> {
+    let alpha = every_request();
     let reqs: Vec<(String, Vec<u8>)> = names.iter().map(|n| (n.clone(), alpha.iter().find(|(a, _)| a == n).map(|(_, r)| r.clone()).unwrap_or_default())).collect();
     let mut fails = Vec::new();
-    let solos: Vec<Vec<u8>> = match reqs.iter().map(|(_, r)| solo(r)).collect::<Result<Vec<_>, _>>() {
+    let solos: Vec<Vec<u8>> = match reqs.iter().map(|(_, r)| solo_under(config, r)).collect::<Result<Vec<_>, _>>() {
         Ok(s) => s,
         Err(e) => return vec![("C08:machinery:solo-run-failed".into(), e)],
     };
     let r2 = reqs.clone();
+    let cfg = config.to_string();
     let out = fork_run(move || {
+        apply_config(&cfg);
         let outs: Vec<String> = r2.iter().map(|(_, r)| hex(&serve(r))).collect();
         serde_json::to_vec(&outs).unwrap_or_default()
     });
@@ -319,14 +394,14 @@ pub fn run(ctx: &mut Ctx) {
     ctx.bound("interleavings_with_follow_up", json!("two concurrent requests of a 5 (8 in thorough) element subset, one of the two threads then serves a third request (get-file or not-found): every schedule with <= 2 preemptions"));
     ctx.bound("interleavings", json!(if thorough { "every unordered pair (incl. the same request twice): every schedule with <= 3 preemptions; every unordered triple of 6 requests: <= 2 preemptions" } else { "every unordered pair (incl. the same request twice): every schedule with <= 2 preemptions" }));
     // (1) histories
-    let mut hist = |ctx: &mut Ctx, h: Vec<String>| {
-        let j = json!({"kind": "history", "requests": h});
+    let mut hist_cfg = |ctx: &mut Ctx, config: &str, h: Vec<String>| {
+        let j = if config == "default" { json!({"kind": "history", "requests": h}) } else { json!({"kind": "history", "config": config, "requests": h}) };
         if !ctx.begin(j.to_string().as_bytes()) {
             return;
         }
         ctx.nontrivial();
         ctx.sample(|| j.clone());
-        let fails = check_history(&h);
+        let fails = check_history_under(config, &h);
         ctx.add("transitions", h.len() as u64);
         ctx.add("states", 1);
         ctx.add("traces_validated_against_impl", 1);
@@ -339,16 +414,32 @@ pub fn run(ctx: &mut Ctx) {
             }
         }
     };
-    for a in &names {
-        for b in &names {
+    let mut hist = |ctx: &mut Ctx, h: Vec<String>| hist_cfg(ctx, "default", h);
+    let all_names: Vec<String> = every_request().iter().map(|(n, _)| n.to_string()).collect();
+    ctx.bound("history_only_requests", json!(history_extra().iter().map(|(n, _)| *n).collect::<Vec<_>>()));
+    ctx.bound("history_configurations", json!(["default (allow-all)", "cors-configured: every ordered pair (thorough: triple) of the requests that carry an Origin or are preflights, plus get-file and head-file"]));
+    for a in &all_names {
+        for b in &all_names {
             hist(ctx, vec![a.clone(), b.clone()]);
         }
     }
-    let prone: Vec<String> = if thorough { names.clone() } else { ["get-file", "get-range", "form-post-short", "form-post-long", "form-multipart", "link-small", "link-big", "bad-request"].iter().map(|s| s.to_string()).collect() };
+    let prone: Vec<String> = if thorough { all_names.clone() } else { ["get-file", "get-range", "form-post-short", "form-post-long", "form-multipart", "link-small", "link-big", "bad-request"].iter().map(|s| s.to_string()).collect() };
     for a in &prone {
         for b in &prone {
             for c in &prone {
                 hist(ctx, vec![a.clone(), b.clone(), c.clone()]);
+            }
+        }
+    }
+    drop(hist);
+    let corsy: Vec<String> = all_names.iter().filter(|n| n.starts_with("options-") || n.contains("origin") || *n == "get-file" || *n == "head-file").cloned().collect();
+    for a in &corsy {
+        for b in &corsy {
+            hist_cfg(ctx, "cors-configured", vec![a.clone(), b.clone()]);
+            if thorough {
+                for c in &corsy {
+                    hist_cfg(ctx, "cors-configured", vec![a.clone(), b.clone(), c.clone()]);
+                }
             }
         }
     }
@@ -415,8 +506,8 @@ pub fn replay(v: &Value) -> Vec<Failure> {
     let names: Vec<String> = v["requests"].as_array().map(|a| a.iter().filter_map(|x| x.as_str().map(|s| s.to_string())).collect()).unwrap_or_default();
     let mut out = Vec::new();
     if v["kind"].as_str() == Some("history") {
-        for (signature, detail) in check_history(&names) {
-            out.push(Failure { signature, case: v.clone(), detail });
+        for (signature, detail) in check_history_under(v["config"].as_str().unwrap_or("default"), &names) {
+            out.push(Failure { signature, case: v.clone(), detail, hash: 0 });
         }
     } else {
         let reqs: Vec<Vec<Vec<u8>>> = requests_of(&names).into_iter().map(|seq| seq.into_iter().map(|(_, r)| r).collect()).collect();
@@ -427,10 +518,10 @@ pub fn replay(v: &Value) -> Vec<Failure> {
             let b = execute(&reqs, &schedule);
             if let (Ok(a), Ok(b)) = (a, b) {
                 if a.diverged.is_some() || b.diverged.is_some() {
-                    out.push(Failure { signature: "C08:machinery:schedule-diverged-on-replay".into(), case: v.clone(), detail: format!("{:?}", a.diverged) });
+                    out.push(Failure { signature: "C08:machinery:schedule-diverged-on-replay".into(), case: v.clone(), detail: format!("{:?}", a.diverged), hash: 0 });
                 } else if let Some((signature, detail)) = judge_exec(&names, &solos, &a) {
                     if judge_exec(&names, &solos, &b).map(|x| x.0) == Some(signature.clone()) {
-                        out.push(Failure { signature, case: v.clone(), detail });
+                        out.push(Failure { signature, case: v.clone(), detail, hash: 0 });
                     }
                 }
             }
